@@ -68,10 +68,26 @@ func (g *Gen) unOpTerm(x *ssa.UnOp, a string) string {
 func (g *Gen) loadVal(p string, t types.Type) string {
 	if isComposite(t) {
 		// copy into a fresh temp object (value semantics)
+		pre := g.cur.Alloc
 		o := g.newObject(g.cur)
 		tmp := g.mkptr(o, g.M.IxLit(0))
 		src := g.cur.clone()
 		g.copyCells(g.cur, tmp, src, p, t)
+		// the copied references existed before the temporary was allocated: they cannot point into it
+		for _, r := range g.L.Ranges(t) {
+			if r.Count > 8 {
+				continue
+			}
+			for k := int64(0); k < r.Count; k++ {
+				c := g.loadCell(src, g.ptrAdd(p, g.M.IxLit(r.Off+k)), r.Sort)
+				switch r.Sort {
+				case "Ptr":
+					g.assume(app("<=", pObj(c), pre))
+				case "Slice":
+					g.assume(app("<=", pObj(app("sl.ptr", c)), pre))
+				}
+			}
+		}
 		return tmp
 	}
 	return g.loadCell(g.cur, p, g.L.CellSort(t))
